@@ -2,8 +2,10 @@
 (* Exact rational arithmetic on normalised pairs <<num, den>> (den > 0, gcd 1) with cross-cancelling so that     *)
 (* intermediate products stay within TLC's 32-bit integers for the small instances used by the specifications. *)
 EXTENDS Integers
-RECURSIVE Gcd(_, _)
-Gcd(a, b) == IF b = 0 THEN (IF a < 0 THEN -a ELSE a) ELSE Gcd(b, a % b)
+Abs(a) == IF a < 0 THEN -a ELSE a
+RECURSIVE GcdP(_, _)
+GcdP(a, b) == IF b = 0 THEN a ELSE GcdP(b, a % b)
+Gcd(a, b) == GcdP(Abs(a), Abs(b))
 Norm(n, d) == LET g == Gcd(n, d) s == IF d < 0 THEN -1 ELSE 1 IN IF n = 0 THEN <<0, 1>> ELSE <<s * (n \div g), s * (d \div g)>>
 R(n) == <<n, 1>>
 RAdd(x, y) == LET g == Gcd(x[2], y[2]) IN Norm(x[1] * (y[2] \div g) + y[1] * (x[2] \div g), (x[2] \div g) * y[2])
